@@ -314,6 +314,9 @@ def call_builtin(I, live, args, kwargs, node=None):
             return ZVal(TSet(v.ty.elem), Cell(z3.Lambda([x], z3.Contains(v.t, z3.Unit(x)))))
         if isinstance(v, ZVal) and isinstance(v.ty, TSet):
             return ZVal(v.ty, Cell(v.t))
+        if isinstance(v, ZVal) and isinstance(v.ty, TMap):
+            # the key set of a map value is its `present` component
+            return ZVal(TSet(v.ty.k), Cell(v.ty.parts()[2][0](v.t)))
         raise Unsupported("set() of symbolic iterable")
     if live is dict:
         if not args and not kwargs:
@@ -535,6 +538,9 @@ def sorted_model(I, v, kwargs, node):
             return SList(items)
         raise Unsupported("sorted of symbolic elements")
     src = None
+    if getattr(I, "forget_order_facts", False) and isinstance(v, ZVal) and isinstance(v.ty, (TSet, TSeq)) and not kwargs:
+        # over-approximation requested by the target: an arbitrary sequence of the element type
+        return ZVal(TSeq(v.ty.elem), Cell(c.fresh("sorted_any", z3.SeqSort(v.ty.elem.sort()))))
     if isinstance(v, ZVal) and isinstance(v.ty, TSet):
         ety = v.ty.elem
         res = c.fresh("sorted", z3.SeqSort(ety.sort()))
@@ -569,6 +575,9 @@ def call_method_model(I, recv, name, args, kwargs, node=None):
         n = c.fresh("count", IntS)
         c.assume(z3.And(n >= 0, n <= I.codec.generic_of(v)[2]))
         return SInt(n)
+    if isinstance(v, SStr) and name == "format":
+        # formatted text is not modelled: an arbitrary string (used for log / diagnostic text only)
+        return SStr(c.fresh("formatted", StrS))
     if isinstance(v, ZVal) or isinstance(v, SStr):
         args = [I.unopt(a) for a in args]
     if isinstance(v, SStr):
@@ -719,7 +728,8 @@ def str_method(I, v, name, args, kwargs, node):
             return ZVal(TSeq(TStr()), Cell(sp))
         raise Unsupported(f"str.{name} on symbolic string")
     if name == "format":
-        raise Unsupported("str.format")
+        # formatted text is not modelled: an arbitrary string (used for log / diagnostic text only)
+        return SStr(c.fresh("formatted", StrS))
     if name == "encode":
         fn = z3.Function("py_utf8_encode", StrS, BytesS)
         return SBytes(fn(t))
@@ -937,6 +947,9 @@ def zval_method(I, v, name, args, kwargs, node):
         s, mk, accs = ty.parts()
         if name == "get":
             kt = unwrap(ty.k, args[0])
+            if len(args) == 1 and isinstance(ty.v, (TInt, TStr, TBool)):
+                # scalar value, default None: no fork
+                return SOpt(z3.Not(z3.Select(accs[0](v.t), kt)), ops.map_value(ty, v, kt))
             if c.branch(z3.Select(accs[0](v.t), kt)):
                 return ops.map_value(ty, v, kt)
             return args[1] if len(args) > 1 else NONE
